@@ -691,7 +691,8 @@ fn run_section_scaled(rng: &mut Rng) {
         2 => (gen::sphere(rng.range(0.5, 3.0), rng.int(4, 10) as usize, rng.int(3, 7) as usize), Kind::Sphere),
         _ => (gen::torus(rng.range(2.0, 4.0), rng.range(0.3, 1.0), rng.int(5, 12) as usize, rng.int(4, 8) as usize), Kind::Torus),
     };
-    let f: f64 = *rng.pick(&[1e-2, 0.1, 30.0, 400.0, 2000.0, 3e4]);
+    // from a part of a few hundred micrometres (a model in metres, a MEMS feature) to one of tens of thousands of units
+    let f: f64 = *rng.pick(&[1e-4, 1e-3, 1e-2, 0.1, 30.0, 400.0, 2000.0, 3e4]);
     let t = gen::iso3(rng, 3.0);
     let verts: Vec<Point3> = base.0.vertices().iter().map(|p| Point3::from((t * p).coords * f)).collect();
     let mesh = Mesh::new(verts, base.0.faces().to_vec(), false);
@@ -706,10 +707,11 @@ fn run_section_scaled(rng: &mut Rng) {
     let n = if rng.chance(0.4) { UnitVec3::new_normalize(*rng.pick(&[Vector3::x(), Vector3::y(), Vector3::z()])) } else { UnitVec3::new_normalize(rvec(rng)) };
     let pv = vs[rng.below(vs.len())];
     // beside a vertex by a few micrometres to a millimetre, whatever the size of the mesh
-    let delta = 10f64.powf(rng.range(-5.3, -3.0)) * if rng.chance(0.5) { 1.0 } else { -1.0 };
+    let small = f < 1e-2;
+    let delta = if small { scale * rng.range(0.01, 0.2) } else { 10f64.powf(rng.range(-5.3, -3.0)) } * if rng.chance(0.5) { 1.0 } else { -1.0 };
     let plane = Plane3::new(n, n.dot(&pv.coords) + delta);
     let clear = vs.iter().map(|p| plane.signed_distance_to_point(p).abs()).fold(f64::INFINITY, f64::min);
-    if clear < 3e-6 {
+    if clear < if small { 3e-3 * scale } else { 3e-6 } {
         return;
     }
     let c = Case { mesh, kind: base.1, plane: plane.clone(), clean: true, open_section: false, watertight: true, scale };
